@@ -1,5 +1,5 @@
 """Correspondence for the source-to-Lean translator (gen/py2lean.py) and its run-time library (lean/Asn1/PyLite.lean):
-the *translation* of a function (driver ops KTAG, KLEN, KTOBYTES, KOIDENC, KOIDDEC, KTIME, KREAL, KREALDEC, KDECLEN, KDECTAG, KOCTCHUNK, KSETOF, KCERBOOLENC, KBERBOOLENC, KINTENC, KWREAD, KWMARK, KREADTURN, KEOSTURN, PYBIO, KCRANGE, KCSIZE, KCSINGLE, KCALPHA, KCERBOOL, KWRAP, KINTDEC, KBITSDEC, KBITSFROM, KNULLDEC, KBERBOOLDEC, KREQSEEN; PYFROMBYTES) and the function itself in /repo are
+the *translation* of a function (driver ops KTAG, KLEN, KTOBYTES, KOIDENC, KOIDDEC, KTIME, KREAL, KREALDEC, KDECLEN, KDECTAG, KOCTCHUNK, KSETOF, KCERBOOLENC, KBERBOOLENC, KINTENC, KWREAD, KWMARK, KREADTURN, KEOSTURN, PYBIO, KCRANGE, KCSIZE, KCSINGLE, KCALPHA, KCERBOOL, KWRAP, KINTDEC, KBITSDEC, KBITSFROM, KNULLDEC, KBERBOOLDEC, KREQSEEN, KSEQOFIDX; PYFROMBYTES) and the function itself in /repo are
 run on the same arguments; the Python builtins PyLite transcribes (PYOP) are compared with CPython.
 
 A disagreement means the translator or PyLite misrepresents the code (machinery fault to repair) - it is reported as a
@@ -47,7 +47,7 @@ def _py(f, *a, **kw):
     return ('ok', r)
 
 
-def check(rep, drv, seed, n=400, which=('encodeTag', 'encodeLength', 'toBytes', 'oidEncode', 'oidDecode', 'timeCanon', 'realBin', 'realDec', 'decodeLength', 'cerBool', 'wrapTags', 'intDecode', 'decodeTag', 'octetChunks', 'constraintLeaves', 'setOfSort', 'streamWrapper', 'readTurn', 'bitsDecode', 'nullDecode', 'berBoolDec', 'requiredSeen')):
+def check(rep, drv, seed, n=400, which=('encodeTag', 'encodeLength', 'toBytes', 'oidEncode', 'oidDecode', 'timeCanon', 'realBin', 'realDec', 'decodeLength', 'cerBool', 'wrapTags', 'intDecode', 'decodeTag', 'octetChunks', 'constraintLeaves', 'setOfSort', 'streamWrapper', 'readTurn', 'bitsDecode', 'nullDecode', 'berBoolDec', 'requiredSeen', 'seqOfIdx')):
     """returns number of cases compared"""
     from pyasn1.codec.ber import encoder as benc, decoder as bdec
     from pyasn1.compat import integer
@@ -846,6 +846,37 @@ def check(rep, drv, seed, n=400, which=('encodeTag', 'encodeLength', 'toBytes', 
                 bdec.decode(data, asn1Spec=spec)
                 return [0]
             cmp_('requiredSeen', 'KREQSEEN %d %d %s' % (indef, len(req), ' '.join(map(str, req + order))), _py(real_rs))
+    if 'seqOfIdx' in which:
+        # the translated index statement against the real objects: which element a read / a write with index i lands on
+        for i in range(min(n, 120)):
+            size = rng.randrange(0, 6)
+            idx = rng.randrange(-2 * size - 3, size + 3)
+            for cls in (univ.SequenceOf, univ.SetOf):
+                def real_get():
+                    o = cls(componentType=univ.Integer())
+                    o.extend(range(100, 100 + size))
+                    before = [int(x) for x in o]
+                    try:
+                        x = o.getComponentByPosition(idx, instantiate=False)
+                    finally:
+                        if [int(x_) for x_ in o] != before:
+                            return ['read-changed-the-object']
+                    if idx >= size:
+                        return [idx]            # beyond the end: nothing there (instantiate=False), the index is kept as it is
+                    return [int(x) - 100]
+                cmp_('seqOfGetIdx', 'KSEQOFIDX get %d %d' % (size, idx), _py(real_get))
+
+                def real_set():
+                    o = cls(componentType=univ.Integer())
+                    o.extend(range(100, 100 + size))
+                    o.setComponentByPosition(idx, 7)
+                    hit = []
+                    for k in range(len(o)):
+                        c = o.getComponentByPosition(k, instantiate=False)
+                        if c is not univ.noValue and c.isValue and int(c) == 7:
+                            hit.append(k)
+                    return hit[:1]
+                cmp_('seqOfSetIdx', 'KSEQOFIDX set %d %d' % (size, idx), _py(real_set))
     rep.count('kernel_correspondence', done)
     return done + nonlocal_done[0]
 
